@@ -164,7 +164,19 @@ def check_pair(ctx, stack, t1, t2, rng):
         rstack = [(build_real(yp, a, vmap), build_real(yp, b, vmap)) for a, b in stack]
         held = []
         try:
-            rx, ry = build_real(yp, x, vmap), build_real(yp_b, y, vmap)
+            if temp:
+                # the term objects are built while some of their variables are bound; those bindings are then undone
+                tg = []
+                for tv, tc in temp:
+                    g0 = iter(E.unify(build_real(yp, tv, vmap), build_real(yp, tc, vmap)))
+                    next(g0)
+                    tg.append(g0)
+                rx, ry = build_real(yp, x, vmap), build_real(yp_b, y, vmap)
+                for g0 in reversed(tg):
+                    g0.close()
+                del tg
+            else:
+                rx, ry = build_real(yp, x, vmap), build_real(yp_b, y, vmap)
             early = None
             if how_created == 'early':
                 # the unification is created first and only STARTED under the stack of bindings
@@ -215,6 +227,17 @@ def check_pair(ctx, stack, t1, t2, rng):
 
     how = rng.choice(['exhaust', 'exhaust', 'exhaust', 'close', 'close', 'drop', 'throw'])
     how_created = 'early' if (stack and rng.random() < 0.35) else 'late'
+    temp = []
+    if rng.random() < 0.2:
+        from ..terms import term_vars
+        tvs = []
+        for v in term_vars(t1) + term_vars(t2):
+            if v not in tvs and v not in [a for a, b in stack]:
+                tvs.append(v)
+        for v in tvs[:rng.choice([1, 2])]:
+            temp.append((v, rng.choice([A('a'), A('b'), I(1), C('f', A('a'))])))
+        if temp:
+            c['terms_built_under_bindings_undone_later'] = 1
     if how_created == 'early':
         c['created_before_the_bindings_it_starts_under'] = 1
     st, r = real_run(t1, t2, how)
